@@ -141,25 +141,26 @@ pub fn cosine_distance(a: &[f32], b: &[f32]) -> f64 {
         return f64::INFINITY;
     }
 
-    let mut dot_product: f32 = 0.0;
-    let mut norm_a_sq: f32 = 0.0;
-    let mut norm_b_sq: f32 = 0.0;
+    // Accumulate in f64: squares of large f32 components overflow f32 (inf / inf = NaN)
+    // and squares of small ones underflow to zero
+    let mut dot_product: f64 = 0.0;
+    let mut norm_a_sq: f64 = 0.0;
+    let mut norm_b_sq: f64 = 0.0;
 
     // Single pass through both vectors for cache efficiency
     for (x, y) in a.iter().zip(b.iter()) {
+        let (x, y) = (f64::from(*x), f64::from(*y));
         dot_product += x * y;
         norm_a_sq += x * x;
         norm_b_sq += y * y;
     }
 
-    let norm_a = f64::from(norm_a_sq).sqrt();
-    let norm_b = f64::from(norm_b_sq).sqrt();
-
-    if norm_a == 0.0 || norm_b == 0.0 {
+    if norm_a_sq == 0.0 || norm_b_sq == 0.0 {
         return 0.0; // Treat zero vectors as identical
     }
 
-    let similarity = f64::from(dot_product) / (norm_a * norm_b);
+    // sqrt of the product (not product of the sqrts): exactly 1 for identical vectors
+    let similarity = dot_product / (norm_a_sq * norm_b_sq).sqrt();
     // Clamp to handle floating point errors
     1.0 - similarity.clamp(-1.0, 1.0)
 }
@@ -312,25 +313,7 @@ pub fn cosine_distance_checked(a: &[f32], b: &[f32]) -> Result<f64, VectorError>
         });
     }
 
-    let mut dot_product: f32 = 0.0;
-    let mut norm_a_sq: f32 = 0.0;
-    let mut norm_b_sq: f32 = 0.0;
-
-    for (x, y) in a.iter().zip(b.iter()) {
-        dot_product += x * y;
-        norm_a_sq += x * x;
-        norm_b_sq += y * y;
-    }
-
-    let norm_a = f64::from(norm_a_sq).sqrt();
-    let norm_b = f64::from(norm_b_sq).sqrt();
-
-    if norm_a == 0.0 || norm_b == 0.0 {
-        return Ok(0.0); // Treat zero vectors as identical
-    }
-
-    let similarity = f64::from(dot_product) / (norm_a * norm_b);
-    Ok(1.0 - similarity.clamp(-1.0, 1.0))
+    Ok(cosine_distance(a, b))
 }
 
 /// Compute dot product with explicit error handling.
@@ -608,7 +591,8 @@ pub fn cosine_distance_int8(a: &[i8], b: &[i8]) -> f64 {
         return 1.0; // Maximum distance for zero vectors
     }
 
-    let similarity = (dot as f64) / ((norm_a as f64).sqrt() * (norm_b as f64).sqrt());
+    // sqrt of the product (not product of the sqrts): exactly 1 for identical vectors
+    let similarity = (dot as f64) / ((norm_a as f64) * (norm_b as f64)).sqrt();
     1.0 - similarity.clamp(-1.0, 1.0)
 }
 
